@@ -179,7 +179,7 @@ def main():
         r = results.setdefault(name, dict(name=name, ok=True, detail=None, cases=0))
         r["cases"] += 1
         if not ok and r["ok"]:
-            r["ok"], r["detail"] = False, detail
+            r["ok"], r["detail"], r["witness"] = False, detail, detail  # the detail names class, state and continuation
 
     ops = 2 if p.get("tier", "quick") == "quick" else 3
     cases = check_buffers(obl, ops)
